@@ -463,42 +463,132 @@ def _value_pi_log2(t, x0):
 
 # =================================================================== Clausen function
 
+def _cl2_reduction(F, R, f, v):
+    """Cl2 vanishes at the multiples of pi; the nearest double to pi is 1.2e-16 away, so a relative accuracy of 1e-13 of
+    the result needs the distance x - m pi to 1e-29 absolute: m pi has to be carried by constants c0 + c1 + ... whose exact
+    sum (as doubles) is m pi to 1e-29, with a short leading constant (k*c0 and x - k*c0 exact) and fused products."""
+    R.rule("K5", "Cl2 argument reduction: every distance `x - k*(c0 + c1 + ...)` / `(c0 + c1 + ...) - x` to a multiple of pi (a zero of "
+                 "Cl2) carries that multiple to <= 1e-29 (sum of the double constants), the leading constant is short (exact "
+                 "products and differences) and the other products are fused; no reduction by a single 53-bit constant (fmod)", 1)
+
+    def lin(t):
+        """t as a linear form {atom: coeff} + {1: const}; products inside fma are exact; returns (form, inexact) or None"""
+        if t[0] == "num":
+            return {1: as_double(t[1])}, []
+        if t[0] == "neg":
+            r = lin(t[1])
+            return None if r is None else ({k_: -c for k_, c in r[0].items()}, r[1])
+        if t[0] in ("+", "-"):
+            a, b = lin(t[1]), lin(t[2])
+            if a is None or b is None:
+                return None
+            out = dict(a[0])
+            for k_, c in b[0].items():
+                out[k_] = out.get(k_, 0) + (c if t[0] == "+" else -c)
+            return out, a[1] + b[1]
+        if t[0] == "*":
+            for u, w in ((t[1], t[2]), (t[2], t[1])):
+                if u[0] == "num" or (u[0] == "neg" and u[1][0] == "num"):
+                    c = as_double(u[1]) if u[0] == "num" else -as_double(u[1][1])
+                    r = lin(w)
+                    if r is None:
+                        return None
+                    bits = c.numerator.bit_length() if c.denominator & (c.denominator - 1) == 0 else 99
+                    inexact = list(r[1])
+                    if any(k_ != 1 for k_ in r[0]) and abs(c) != 1 and bits > 26:
+                        inexact.append("the product with the 53-bit constant %s is rounded (not fused)" % float(c))
+                    return {k_: c * cc for k_, cc in r[0].items()}, inexact
+            return {t: Fr(1)}, []
+        if t[0] == "call" and str(t[1]).split("::")[-1] == "fma" and len(t[2]) == 3:
+            a, b, c = t[2]
+            prod = None
+            for u, w in ((a, b), (b, a)):
+                cu = lin(u)
+                if cu is not None and set(cu[0]) == {1}:
+                    rw = lin(w)
+                    if rw is not None:
+                        prod = ({k_: cu[0][1] * cc for k_, cc in rw[0].items()}, rw[1])
+            rc = lin(c)
+            if prod is None or rc is None:
+                return None
+            out = dict(prod[0])
+            for k_, cc in rc[0].items():
+                out[k_] = out.get(k_, 0) + cc
+            return out, prod[1] + rc[1]
+        return {t: Fr(1)}, []
+
+    def is_arg(a):
+        """the (possibly already reduced / reflected) argument: a symbol, a conditional or an fmod of it"""
+        if a == ("sym", "x"):
+            return True
+        if a[0] == "call" and str(a[1]).split("::")[-1] in ("floor", "round", "trunc", "rint"):
+            return False
+        return a[0] in ("ite", "call") and any(w == ("sym", "x") for w in subterms(a))
+
+    seen, n = set(), 0
+    cands = [u for u in subterms(v) if isinstance(u, tuple) and u and (u[0] in ("+", "-") or (u[0] == "call" and str(u[1]).split("::")[-1] == "fma"))]
+    cands.sort(key=lambda u: -len(show(u)))
+    covered = set()
+    for u in cands:
+        if u in covered:
+            continue
+        r = lin(u)
+        if r is None:
+            continue
+        form, inexact = r
+        xs = [a for a in form if a != 1 and is_arg(a)]
+        ks = [a for a in form if a != 1 and a[0] == "call" and str(a[1]).split("::")[-1] in ("floor", "round", "trunc", "rint")]
+        if len(xs) != 1 or abs(form[xs[0]]) != 1 or set(form) - {1, xs[0]} - set(ks):
+            continue
+        if ks:
+            C = -form[ks[0]] * form[xs[0]]
+        elif 1 in form and form[1] != 0:
+            C = abs(form[1])
+        else:
+            continue
+        m = round(float(C) / math.pi * 2) / 2.0
+        if m not in (1.0, 2.0) or abs(float(C) - m * math.pi) > 1e-6:
+            continue
+        def skeleton(t):
+            covered.add(t)
+            if t[0] in ("+", "-", "*"):
+                skeleton(t[1])
+                skeleton(t[2])
+            elif t[0] == "neg":
+                skeleton(t[1])
+            elif t[0] == "call" and str(t[1]).split("::")[-1] == "fma":
+                for a_ in t[2]:
+                    skeleton(a_)
+        skeleton(u)
+        key = (float(C), bool(ks))
+        if key in seen:
+            continue
+        seen.add(key)
+        n += 1
+        mm = Fr(int(m))
+        err = max(abs(C - mm * PI_LO), abs(C - mm * PI_HI))
+        ok = err <= Fr(1, 10 ** 29) and not inexact
+        R.check("K5", ok, "distance to %g pi: constants sum to %g pi within %.1e%s" % (m, m, float(err), ", fused/exact products" if not inexact else ""),
+                F.loc(f), "the distance to %g pi is computed with constants that represent %g pi only to %.1e%s: within ~%.0e of that zero "
+                "of Cl2 the relative error of the result exceeds 1e-13 (the nearest double is 1.2e-16 away: 1e-29 is needed)"
+                % (m, m, float(err), "; " + inexact[0] if inexact else "", float(err) * 1e13), key="K5|%g" % m)
+    fm = [u for u in subterms(v) if isinstance(u, tuple) and u and u[0] == "call" and str(u[1]).split("::")[-1] == "fmod"
+          and len(u[2]) == 2 and is_arg(u[2][0])]
+    if fm:
+        n += 1
+        R.fail("K5", "period reduction by fmod", F.loc(f),
+               "arguments >= 2 pi are reduced with fmod(x, 2 pi) and a 53-bit 2 pi: the absolute error grows by 2.4e-16 per period "
+               "(relative error 5e-11 at x = 1e6, and ~1e-9 just above 2 pi where Cl2 vanishes)", key="K5|fmod")
+    if n == 0:
+        R.soft_broken("K5: no argument reduction found in clausen_2")
+
+
 def _clausen(F, R, f, E):
     from .rules_c11 import _cases
-    R.rule("K3", "Cl2: both rational kernels agree with the series of Cl2 to 1e-13 relative on their intervals (rigorous); the "
-                 "argument reflection uses 2 pi accurate to 1e-18", 3)
+    R.rule("K3", "Cl2: both rational kernels agree with the series of Cl2 to 1e-13 relative on their intervals (rigorous)", 2)
     v, fr = E.function_value(f)
-    # ---- the reflection constants ------------------------------------------------------------------
-    consts = set()
-    for u in subterms(v):
-        if isinstance(u, tuple) and len(u) == 3 and u[0] == "+" and u[1][0] == "-" and u[1][1][0] == "num" and u[2][0] == "num":
-            consts.add((u[1][1][1], u[2][1]))
-    refl = None
-    for p0, p1 in consts:
-        s2pi = as_double(p0) + as_double(p1)
-        if abs(float(s2pi) - 2 * math.pi) < 1e-6:
-            refl = (p0, p1, s2pi)
-    if refl is None:
-        # single-constant reflection  C - x
-        single = [u[1][1] for u in subterms(v) if isinstance(u, tuple) and len(u) == 3 and u[0] == "-" and u[1][0] == "num"
-                  and abs(float(u[1][1]) - 2 * math.pi) < 1e-6]
-        if single:
-            c = as_double(single[0])
-            err = max(abs(c - 2 * PI_LO), abs(c - 2 * PI_HI))
-            R.fail("K3", "Cl2 reflection x -> 2 pi - x", F.loc(f),
-                   "the reflection uses the single double constant %.17g for 2 pi (error %.1e): the reduced argument of "
-                   "angles within %.0e of 2 pi loses the 1e-13 relative accuracy" % (float(c), float(err), float(err) * 1e13),
-                   key="K3|reflection")
-        else:
-            R.soft_broken("K3: reflection constants of clausen_2 not found")
-    else:
-        p0, p1, s2pi = refl
-        err = max(abs(s2pi - 2 * PI_LO), abs(s2pi - 2 * PI_HI))
-        bits = as_double(p0).numerator.bit_length() if as_double(p0).denominator & (as_double(p0).denominator - 1) == 0 else 99
-        R.check("K3", err <= Fr(1, 10 ** 18) and bits <= 26, "Cl2 reflection: p0 + p1 = 2 pi to %.1e, p0 has %d significant bits "
-                "(p0 - x is exact)" % (float(err), bits), F.loc(f),
-                "the two-constant representation of 2 pi is off by %.1e (> 1e-18) or p0 = %s is not a short constant"
-                % (float(err), p0), key="K3|reflection")
+    # ---- argument reduction about the zeros of Cl2 ----------------------------------------------------------
+    _cl2_reduction(F, R, f, v)
     # ---- kernels ---------------------------------------------------------------------------------------
     B = bernoulli(130)
     cases = [(fa, val) for fa, val in _cases(v, []) if any(isinstance(u, tuple) and u and u[0] == "/" for u in subterms(val))]
